@@ -123,6 +123,14 @@ fn extract_doc_comments(root: SyntaxNode, range: TextRange) -> Option<String> {
         if cur_token.kind() != SyntaxKind::LineComment {
             break;
         }
+        // a comment that trails code on its line does not document the next declaration
+        if let Some(before_comment) = cur_token.prev_token() {
+            if before_comment.kind() != SyntaxKind::Whitespace
+                || !before_comment.text().contains('\n')
+            {
+                break;
+            }
+        }
 
         let comment = cur_token.text();
         if !comment.starts_with("//") {
